@@ -17,6 +17,8 @@
 -/
 import Walleye.Proofs.CheckSpec
 import Walleye.Proofs.Start
+import Walleye.Props.C02
+import Walleye.Proofs.FenFaithful
 namespace Walleye
 
 /-- every square the walk passes before it stops is empty -/
@@ -118,5 +120,27 @@ theorem start_premises : RingOK startPosition.board ∧ InnerOK startPosition.bo
             startPosition.board.get r.val k.val = .full ⟨.black, .king⟩ → (⟨r.val, k.val⟩ : Point) = kingPt startPosition .black := by
           decide +kernel
         exact key ⟨r, by omega⟩ ⟨k, by omega⟩ h
+
+/-- **C06 at every position of every game**: the premises are preserved by the generator, so check
+    detection is the rules at every position reachable by generated moves from a well-formed one -/
+theorem check_detection_along_chains (h : Hasher) (p q : Pos) (wf : WFp p) (hinv : Inv h p) (hc : GenChain h p q)
+    (c : Color) : isCheck q c = Spec.inCheck (abs q) c := by
+  have wfq := (gen_chain_wf h p q wf hinv hc).1
+  exact isCheck_eq_inCheck q wfq.ring wfq.inner wfq.kings c
+
+/-- … and for every legal position given as FEN and everything reachable from it -/
+theorem check_detection_from_every_fen_position (h : Hasher) (P : Spec.Position) (hsz : P.cells.size = 64)
+    (hlegal : Spec.LegalPosition P = true) (half full : List Char) (hh : CounterOK half) (hf : CounterOK full) :
+    ∃ p, fromFen h (canonText P half full) = .ok p ∧ abs p = P ∧
+      ∀ q, GenChain h p q → ∀ c, isCheck q c = Spec.inCheck (abs q) c := by
+  have hlp := LP_of P hlegal
+  have hep : ∀ e, P.ep = some e → InB e := by
+    intro e he
+    obtain ⟨h1, h2, _⟩ := hlp.ep e he
+    refine ⟨h1, ?_⟩
+    rw [h2]; cases P.side.opp <;> decide
+  obtain ⟨p, hload, habs, hwf⟩ := fromFen_canonical h P hsz hep half full hh hf
+  obtain ⟨wf, hinv⟩ := hwf hlp
+  exact ⟨p, hload, habs, fun q hc c => check_detection_along_chains h p q wf hinv hc c⟩
 
 end Walleye
